@@ -464,14 +464,4 @@ impl State {
         s.progress(&mut ex);
         (s, ex)
     }
-
-    /// True if some handler is (or will stay) blocked on the gate that never opens while its
-    /// worker waits gracefully: the shutdown can then only end by timeout.
-    pub fn waits_for_timeout(&self) -> bool {
-        self.cfg.mode == Mode::Short
-            && !self.resolved
-            && self.c.iter().enumerate().any(|(i, c)| {
-                matches!(c.loc, Loc::Started(_)) && c.entered > c.responded && self.never_opens(i as u8)
-            })
-    }
 }
